@@ -516,11 +516,13 @@ static std::vector<std::string> run_forked(std::vector<std::string> const& lines
 	for(;;) { ssize_t n = ::read(fd, bufc, sizeof bufc); if(n <= 0) break; all.append(bufc, static_cast<std::size_t>(n)); }
 	::close(fd);
 	std::vector<std::string> out; std::istringstream is(all); std::string l; while(std::getline(is, l)) out.push_back(l);
-	// a child that died inside an operation leaves the partial line "r <tag>": that operation's outcome is CORRUPT
-	bool ended = !out.empty() && out.back().rfind("end", 0) == 0;
-	if(!ended) {
-		if(!all.empty() && all.back() != '\n' && !out.empty()) out.back() += " CORRUPT"; else out.push_back("r ? CORRUPT");
-		out.push_back("halt"); out.push_back("end halted"); (void)st;
+	// a child that died inside an operation (assertion, sanitizer abort, signal) leaves the partial line "r <tag>": that
+	// operation's outcome is CORRUPT.  A program without an `end` line (a prefix tried by the shrinker) is not a crash.
+	bool died = !WIFEXITED(st) || WEXITSTATUS(st) != 0;
+	bool partial = !all.empty() && all.back() != '\n';
+	if(died || partial) {
+		if(partial && !out.empty()) out.back() += " CORRUPT"; else out.push_back("r ? CORRUPT");
+		out.push_back("halt"); out.push_back("end halted");
 	}
 	return out;
 }
